@@ -5,6 +5,7 @@
 //! 1 violation (a line `VIOLATION property=<ID> replay=<path>`), 2 inconclusive (usage / internal error).
 
 mod p_adsr;
+mod p_api;
 mod p_clamp;
 mod p_clamp_ext;
 mod p_glide;
@@ -70,6 +71,7 @@ fn dispatch(id: &str, quick: bool, seed: u64) -> Option<(Outcome, u64)> {
         "C05" => p_midi::c05(quick, seed),
         "C06" => p_midi::c06(quick, seed),
         "C18" => p_midi::c18(quick, seed),
+        "C17" => p_api::c17(quick, seed),
         "C13" => p_glide::c13(quick, seed),
         "C15" => p_ribbon::c15(quick, seed),
         "C16" => p_ribbon::c16(quick, seed),
@@ -129,6 +131,7 @@ fn replay_engine(property: &str, engine: &str, case: &Value) -> Result<(), Failu
         e if e.starts_with("quant_") => p_quant::replay(property, e, case),
         e if e.starts_with("midi_") => p_midi::replay(property, e, case),
         e if e.starts_with("glide_") => p_glide::replay(e, case),
+        "api_any" => p_api::replay(case),
         e if e.starts_with("ribbon_") => p_ribbon::replay(property, e, case),
         _ => Err(Failure::new("replay_unknown_engine", 0, format!("no replay handler for engine {}", engine))),
     }
